@@ -25,7 +25,7 @@ package mfs
 //@ func (*Directory).Child
 //@   assumed
 //@   modifies failed(), fault()
-//@   ensures err == nil ==> holds(d, name) && result0 != nil && (typeis(result0, "*File") || typeis(result0, "*Directory")) && failed() == old(failed()) && fault() == old(fault())
+//@   ensures err == nil ==> holds(d, name) && result0 != nil && (typeis(result0, "*File") || (typeis(result0, "*Directory") && unbox(result0, "*Directory") != nil)) && failed() == old(failed()) && fault() == old(fault())
 //@   ensures err != nil ==> failed() && (err == os.ErrNotExist ==> !holds(d, name) && fault() == old(fault())) && (err != os.ErrNotExist ==> fault())
 // AddChild: refuses an existing name without touching anything; otherwise adds it or hits a storage fault
 //@ func (*Directory).AddChild
@@ -44,6 +44,13 @@ package mfs
 //@   ensures err == nil ==> failed() == old(failed()) && fault() == old(fault())
 //@   ensures err != nil ==> failed() && fault()
 
+//@ func isOrIsBelow
+//@   prop C19
+//@   arith int
+//@   modifies nothing
+//@   loop 0 invariant[starts_at_d] d == anc ==> cur == d
+//@   ensures[a_directory_is_below_itself] d != nil && d == anc ==> result
+
 // Mv, against the abstract tree:
 //  - a destination ending in '/' names the directory to move into (it is looked up as given);
 //  - an existing destination directory receives the entry under the source name;
@@ -52,7 +59,7 @@ package mfs
 //    entry of the same directory (the only success path that skips the final Unlink);
 //  - a directory is never added to itself (the final Unlink would drop the whole sub-tree);
 //  - a failed Mv that met no storage fault has not edited the tree;
-//  - Mv fails only when one of its steps answered with an error.
+//  - Mv fails only when one of its steps answered with an error or the move is into the moved directory.
 //@ func Mv
 //@   prop C19
 //@   arith int
@@ -67,7 +74,7 @@ package mfs
 //@   site[moved_node_is_the_source_node] call:Directory.AddChild : arg2 == res("invoke:FSNode.GetNode#0", 0) && res("invoke:FSNode.GetNode#0", 1) == nil
 //@   site[never_into_the_moved_directory] call:Directory.AddChild : !(typeis(srcObj, "*Directory") && arg0 == unbox(srcObj, "*Directory"))
 //@   ensures[logical_failure_is_atomic] err != nil && !fault() ==> edits() == old(edits())
-//@   ensures[errors_have_a_cause] err != nil ==> failed()
+//@   ensures[errors_have_a_cause] err != nil ==> failed() || (called("call:isOrIsBelow#0") && res("call:isOrIsBelow#0", 0)) || (called("call:isOrIsBelow#1") && res("call:isOrIsBelow#1", 0))
 //@   ensures[success_edits] err == nil ==> edits() > old(edits())
 
 // ---- C20: lock discipline of File.nodeLock (ghost lockset of the current call chain) ------
